@@ -61,6 +61,9 @@ CLAIMS = {
  "C20": ("shape/type-level abstract interpretation of model constructors and __call__ over the constructor box (output signature == requested signature; abstract shape errors) + tracked flatten/unflatten round trip",
          "Decides for the swept constructor box in equivariant and conventional mode (classes, depth, blocks, down-samplings, convolutions per level, normalisation incl. batch norm, bias, activation, kernel size, D=2,3, non-square extents, mixed flags, signatures with several types, pseudo-types and unequal channels) that the output holds exactly the requested types, channel counts and order with the input's spatial shape, D and flags; internal channel/shape inconsistencies surface as abstract errors at the offending statement.",
          "Trusted: shape summaries of eqx.nn.Conv/ConvTranspose/GroupNorm/BatchNorm; banks contain every needed filter type (the 'reachable through present filters' clause is only exercised with complete banks); equivariant group norm is documented as unavailable for k>1.", "3/C20"),
+ "C09": ("taint analysis by abstract interpretation (symbols passing through stop_gradient are renamed; no output may depend on an unwrapped filter-bank symbol) + AST who-may-write and train_step/train role rules; parameter-generic equivariance from C06-C08",
+         "Decides the structural part that makes the guarantee independent of the parameter values: every dependence of a layer or network output on the invariant filter bank passes through jax.lax.stop_gradient (so the bank's gradient is identically zero and an optimiser changes it at most by weight decay's common rescaling), the bank field is written only in ConvContract.__init__, the gradient is taken at and with respect to the model argument, and the model is changed only through optim.update + eqx.apply_updates; together with C06-C08 (equivariance for every value of every other learnable leaf) the returned model is equivariant after any training history.",
+         "Trusted: optax/equinox update semantics (leaf values change, structure and static fields do not; weight decay is a common rescaling); zero-gradient leaves are not moved otherwise. No training run is executed.", "3/C09"),
 }
 
 NA_REASON = "check not built yet in this session (build in progress); see DESIGN.md section 3 for the planned static rule"
